@@ -155,8 +155,8 @@ Proof.
   induction todo as [|u rest IH]; intros s cur ec.
   - destruct w; reflexivity.
   - cbn [run_joins]. destruct (is_run (wget (fst s) u)).
-    + destruct w; reflexivity.
-    + rewrite IH. destruct w; reflexivity.
+    + destruct w, cur; reflexivity.
+    + rewrite IH. destruct w, cur; reflexivity.
 Qed.
 
 Lemma leave_wait_keeps c s ec w : w <> WIn -> wget (fst (leave_wait c s ec)) w = wget (fst s) w.
